@@ -324,6 +324,30 @@ def run_shard(shard):
                         add_violation(res, f"C04:retargeted-object:{fam}-{kind}",
                                       f"{fam} {kind} object built as {a}, re-assigned to {b}: equal to a fresh {kind} {b}, but writes {f1.as_integer:#x} "
                                       f"(fresh object writes {f2.as_integer:#x}) and reads back as {back}", {"t": "eq", "a": [fam, [kind, a]], "b": [fam, [kind, b]]})
+        # what a DECODE hands out belongs to the caller: re-assigning the number of an object that from_frame returned
+        # (e.g. to forward the command elsewhere) must not change what a later, fresh frame with the same bits reads as
+        for fam, kind, attr, n, bits in (("gear", "short", "address", 64, 16), ("gear", "group", "group", 16, 16),
+                                         ("device", "short", "address", 64, 24), ("device", "group", "group", 32, 24)):
+            for a in range(n):
+                for b in ((a + 1) % n, (a + n // 2) % n):
+                    f0 = FF(bits, 0x10000 if bits == 24 else 0)
+                    R.lib_mkaddr((kind, a), fam).add_to_frame(f0)
+                    v = f0.as_integer
+                    for via in (A.from_frame, type(R.lib_mkaddr((kind, a), fam)).from_frame):
+                        d = via(FF(bits, v))
+                        try:
+                            setattr(d, attr, b)
+                        except Exception:
+                            continue
+                        res["evaluations"] += 1
+                        again = via(FF(bits, v))
+                        if not _same_addr(again, (kind, a), fam):
+                            add_violation(res, f"C04:decoded-object-shared:{fam}-{kind}",
+                                          f"{fam} frame {v:#x} decoded, the returned object's .{attr} re-assigned {a} -> {b}; a fresh frame with the same bits "
+                                          f"then reads as {again}, the bits denote {kind} {a}", {"t": "eq", "a": [fam, [kind, a]], "b": [fam, [kind, b]]})
+                        if again is not None and again is d:
+                            setattr(d, attr, a)
+        res["distinct"].add(("eq", "decoded-object-reassigned"))
         res["distinct"].add(("eq", "pairs"))
         res["distinct"].add(("eq", "inst-pairs"))
         sample(res, {"eq_pairs": len(objs) ** 2, "instance_pairs": len(inst) ** 2})
